@@ -454,7 +454,7 @@ func (x *Exec) verifyFuncPass(d *Decl, res *UnitResult, fd *ast.FuncDecl, fixed 
 			// frame and shape of objects modified through pointer parameters
 			for _, rp := range refParams {
 				mod := map[string]bool{}
-				for _, mf := range d.Modifies {
+				for _, mf := range append(append([]string{}, d.Modifies...), d.Memo...) {
 					if strings.HasPrefix(mf, rp.name+".") {
 						mod[strings.TrimPrefix(mf, rp.name+".")] = true
 					}
@@ -716,6 +716,44 @@ func (w *World) lemmaByName(name string) *Decl {
 // checkEstablishedBy: structural scan behind every type invariant. Objects of a type with an invariant may be
 // created (new(T), T{}, &T{}) and have their fields assigned only inside the functions listed after
 // established_by (whose contracts prove the invariant) -- otherwise assuming the invariant for every *T is unsound.
+// checkMemoFields: a field declared `memo recv.f` on function F is mentioned nowhere in the module except inside F
+// (so hiding F's write to it from F's callers is sound).
+func (w *World) checkMemoFields() []string {
+	var problems []string
+	for key, d := range w.Contracts {
+		for _, mf := range d.Memo {
+			parts := strings.SplitN(mf, ".", 2)
+			if len(parts) != 2 {
+				problems = append(problems, key+": bad memo clause "+mf)
+				continue
+			}
+			for _, q := range w.Order {
+				for _, f := range q.Files {
+					if f == q.GenFile {
+						continue
+					}
+					for _, dcl := range f.Decls {
+						fd, ok := dcl.(*ast.FuncDecl)
+						if !ok || fd.Body == nil || q.Name+"."+funcKey(fd) == key {
+							continue
+						}
+						ast.Inspect(fd.Body, func(n ast.Node) bool {
+							if se, ok := n.(*ast.SelectorExpr); ok && se.Sel.Name == parts[1] {
+								if sel := q.Info.Selections[se]; sel != nil && sel.Kind() == types.FieldVal {
+									problems = append(problems, fmt.Sprintf("%s: memo field %s is also accessed in %s.%s", key, parts[1], q.Name, funcKey(fd)))
+								}
+							}
+							return true
+						})
+					}
+				}
+			}
+		}
+	}
+	sort.Strings(problems)
+	return problems
+}
+
 func (w *World) checkEstablishedBy() []string {
 	var problems []string
 	for key, td := range w.TypeInvs {
